@@ -137,14 +137,23 @@ def child_main(cfg):
         out["details"] = [_detail(o) for _, o in run.records]
         print(json.dumps(out))
         return 0
-    for idx in range(cfg["start"], cfg["stop"]):
+    indices = list(range(cfg["start"], cfg["stop"]))
+    if cfg["variant"].get("order") == "reverse":
+        # the same runs, executed in the opposite order: what this interpreter did BEFORE a run differs
+        # from the other configurations (any dependence on process history shows as a digest mismatch)
+        indices.reverse()
+    digests, nontriv = {}, {}
+    for idx in indices:
         scn, run = run_one(cfg["seed"], idx, cfg["variant"])
-        out["digests"].append(engine.log_digest(run.log)[:24])
-        out["nontrivial"].append(1 if nontrivial(run) else 0)
+        digests[idx] = engine.log_digest(run.log)[:24]
+        nontriv[idx] = 1 if nontrivial(run) else 0
         out["ops"] += run.stats["ops"]
         out["failed"] += run.stats["failed_ops"]
         if idx in cfg.get("dump", ()):
             out.setdefault("logs", {})[str(idx)] = run.log
+    for idx in range(cfg["start"], cfg["stop"]):
+        out["digests"].append(digests[idx])
+        out["nontrivial"].append(nontriv[idx])
     print(json.dumps(out))
     return 0
 
@@ -200,6 +209,8 @@ def configs_for(tier):
         elif j % 4 == 3:
             variant["kw"] = True
             variant["creation"] = "all"
+        if j % 4 in (2, 3):
+            variant["order"] = "reverse"
         if j % 8 in (1, 6):
             variant["fresh"] = True
         elif j % 8 in (3, 4):
@@ -280,7 +291,8 @@ def main(args, seed):
             # not reproducible from the scenario alone: does it reproduce in the context of the runs that
             # preceded it in the same interpreter (process-global state accumulating across runs)?
             start = (idx // slice_size) * slice_size
-            path = investigate_in_context(seed, start, idx, cfgs[0], cfgs[ci])
+            path = investigate_in_context(seed, start, idx, cfgs[0], cfgs[ci],
+                                          stop=min(n_runs, start + slice_size))
             if path is None:
                 raise engine.HarnessError(f"digest mismatch for run {idx} reproduces neither in isolation nor "
                                           "in context: the harness itself is nondeterministic")
@@ -353,22 +365,24 @@ def investigate(seed, idx, cfg_a, cfg_b, known):
     return path, "violation"
 
 
-def _slice_digest(seed, start, stop, cfg):
-    c = {"seed": seed, "start": start, "stop": stop, "variant": cfg["variant"], "dump": [stop - 1]}
+def _slice_digest(seed, start, stop, cfg, idx=None):
+    idx = stop - 1 if idx is None else idx
+    c = {"seed": seed, "start": start, "stop": stop, "variant": cfg["variant"], "dump": [idx]}
     r = collect(spawn(c, cfg["hashseed"]), 1800)
-    return r["digests"][-1], r.get("logs", {}).get(str(stop - 1), [])
+    return r["digests"][idx - start], r.get("logs", {}).get(str(idx), [])
 
 
-def investigate_in_context(seed, start, idx, cfg_a, cfg_b):
-    da, la = _slice_digest(seed, start, idx + 1, cfg_a)
-    db, lb = _slice_digest(seed, start, idx + 1, cfg_b)
+def investigate_in_context(seed, start, idx, cfg_a, cfg_b, stop=None):
+    stop = idx + 1 if stop is None else stop
+    da, la = _slice_digest(seed, start, stop, cfg_a, idx)
+    db, lb = _slice_digest(seed, start, stop, cfg_b, idx)
     if da == db:
         return None
     first = next((i for i, (x, y) in enumerate(zip(la, lb)) if x != y), None)
     os.makedirs(os.path.join(VERIF, "replays"), exist_ok=True)
     path = os.path.join(VERIF, "replays", f"{PROP}-{seed}-{idx}-context.json")
     doc = {"property": PROP, "violation_class": "digest-differs-across-configurations-in-context", "mode": "slice",
-           "verif_seed": seed, "start": start, "run_index": idx,
+           "verif_seed": seed, "start": start, "stop": stop, "run_index": idx,
            "config_a": {"hashseed": cfg_a["hashseed"], "variant": cfg_a["variant"]},
            "config_b": {"hashseed": cfg_b["hashseed"], "variant": cfg_b["variant"]},
            "note": "reproduces only after the preceding runs of the same interpreter (process-global state); "
@@ -377,7 +391,7 @@ def investigate_in_context(seed, start, idx, cfg_a, cfg_b):
            "how_to_replay": f"./check {PROP} --replay {path}"}
     with open(path, "w") as f:
         json.dump(doc, f, indent=1)
-    print(f"violation run={idx} (in the context of runs {start}..{idx}): hashseed={cfg_a['hashseed']} {cfg_a['variant']} vs "
+    print(f"violation run={idx} (in the context of runs {start}..{stop - 1} of the same interpreter): hashseed={cfg_a['hashseed']} {cfg_a['variant']} vs "
           f"hashseed={cfg_b['hashseed']} {cfg_b['variant']} disagree")
     if first is not None:
         print(f"  A: {la[first]}\n  B: {lb[first]}")
@@ -388,8 +402,9 @@ def do_replay(path):
     with open(path) as f:
         doc = json.load(f)
     if doc.get("mode") == "slice":
-        da, la = _slice_digest(doc["verif_seed"], doc["start"], doc["run_index"] + 1, doc["config_a"])
-        db, lb = _slice_digest(doc["verif_seed"], doc["start"], doc["run_index"] + 1, doc["config_b"])
+        stop = doc.get("stop", doc["run_index"] + 1)
+        da, la = _slice_digest(doc["verif_seed"], doc["start"], stop, doc["config_a"], doc["run_index"])
+        db, lb = _slice_digest(doc["verif_seed"], doc["start"], stop, doc["config_b"], doc["run_index"])
         if da != db:
             print(f"VIOLATION property={PROP} replay={path}")
             return 1
